@@ -1802,8 +1802,14 @@ func findNextRequiredLandmarkRunes(input []rune, startAt, endAt int, landmark sy
 			if match, ok := requiredLandmarkAlternativeMatch(input, i, endAt, alt); ok {
 				if !found {
 					best, found = match, true
-				} else if match.End < best.End {
-					best.End = match.End
+				} else {
+					if match.End < best.End {
+						best.End = match.End
+					}
+					// an alternative with leading whitespace reaches further left than one without
+					if match.Start < best.Start {
+						best.Start = match.Start
+					}
 				}
 			}
 		}
